@@ -295,9 +295,8 @@ func (s asciiString) StrictEquals(other Value) bool {
 		return s == otherStr
 	}
 	if otherStr, ok := other.(*importedString); ok {
-		if otherStr.u == nil {
-			return string(s) == otherStr.s
-		}
+		// No need to scan: a string with non-ASCII bytes cannot be equal to an ASCII one.
+		return string(s) == otherStr.s
 	}
 	return false
 }
